@@ -64,18 +64,18 @@ protected:
     return static_cast<T_PointerType>(reinterpret_cast<uintptr_t>(p) - base);
   }
   // context-free forms: base recovered from the example address (region is SIZE-aligned)
-  template<typename T>
+  template<typename T, typename T_Finder>
   static inline void* impl_get_unsandboxed_pointer_no_ctx(T_PointerType p,
                                                           const void* ex,
-                                                          rlbox_vsbx* (*)(const void*))
+                                                          T_Finder)
   {
     return reinterpret_cast<void*>((MASK & reinterpret_cast<uintptr_t>(ex)) +
                                    static_cast<uintptr_t>(p));
   }
-  template<typename T>
+  template<typename T, typename T_Finder>
   static inline T_PointerType impl_get_sandboxed_pointer_no_ctx(const void* p,
                                                                 const void* ex,
-                                                                rlbox_vsbx* (*)(const void*))
+                                                                T_Finder)
   {
     return static_cast<T_PointerType>(reinterpret_cast<uintptr_t>(p) -
                                       (MASK & reinterpret_cast<uintptr_t>(ex)));
@@ -126,7 +126,33 @@ protected:
 
 }
 
+namespace rlbox {
+enum : uint32_t { TAG_GRANT = 0x110, TAG_DENY = 0x111 };
+// same region model, but the backend can also take over / hand back whole buffers (grant/deny access)
+template<typename PT, unsigned LOG>
+class rlbox_vsbx_grant : public rlbox_vsbx<PT, LOG>
+{
+public:
+  using can_grant_deny_access = void;
+protected:
+  template<typename T>
+  inline T* impl_grant_access(T* src, size_t num, bool& success)
+  {
+    env_log(TAG_GRANT, (uint64_t)src, num, sizeof(T));
+    success = env_u64(TAG_GRANT) != 0;
+    return success ? reinterpret_cast<T*>(this->base + (env_u64(TAG_GRANT) & (rlbox_vsbx<PT, LOG>::SIZE - 1))) : nullptr;
+  }
+  template<typename T>
+  inline T* impl_deny_access(T* src, size_t num, bool& success)
+  {
+    env_log(TAG_DENY, (uint64_t)src, num, sizeof(T));
+    success = env_u64(TAG_DENY) != 0;
+    return src;
+  }
+};
+}
 using B32 = rlbox::rlbox_vsbx<uint32_t, 32>;
+using B32G = rlbox::rlbox_vsbx_grant<uint32_t, 32>;
 using B16 = rlbox::rlbox_vsbx<uint16_t, 16>;
 using B8 = rlbox::rlbox_vsbx<uint8_t, 8>;
 
